@@ -194,6 +194,22 @@ func (b nodeBN) AggregateAttestation(_ context.Context, opts *eth2api.AggregateA
 	return nil, fmt.Errorf("aggregate attestation not found by root")
 }
 
+// SyncCommitteeContribution: the contribution this node's beacon node has aggregated so far for the subcommittee and
+// block root (which messages it has seen differs from node to node).
+func (b nodeBN) SyncCommitteeContribution(_ context.Context, opts *eth2api.SyncCommitteeContributionOpts) (*eth2api.Response[*altair.SyncCommitteeContribution], error) {
+	return &eth2api.Response[*altair.SyncCommitteeContribution]{Data: contributionOf(opts.Slot, opts.SubcommitteeIndex, opts.BeaconBlockRoot, b.variant)}, nil
+}
+
+func contributionOf(slot eth2p0.Slot, subcomm uint64, root eth2p0.Root, seenBy byte) *altair.SyncCommitteeContribution {
+	bits := bitfield.NewBitvector128()
+	for k := uint64(0); k <= uint64(seenBy-'a')+1; k++ {
+		bits.SetBitAt(k, true)
+	}
+	var sig eth2p0.BLSSignature
+	sig[0], sig[1] = 0xc5, seenBy
+	return &altair.SyncCommitteeContribution{Slot: slot, BeaconBlockRoot: root, SubcommitteeIndex: subcomm, AggregationBits: bits, Signature: sig}
+}
+
 // aggregateOf is an aggregate over the data as the beacon node of a node with that variant has collected it.
 func aggregateOf(ad eth2p0.AttestationData, seenBy byte) *eth2spec.VersionedAttestation {
 	cb := bitfield.NewBitvector64()
@@ -365,6 +381,27 @@ func runCase(rt *rapid.T, maxN int) {
 	// ... and the aggregation flow: selection proofs (partial) -> aggregated selections -> aggregate fetched for the
 	// decided attestation data -> consensus -> signed aggregate-and-proof
 	withAggregator := realFetch && rapid.IntRange(0, 2).Draw(rt, "withAggregator") == 0
+	// ... and the sync contribution flow (it needs the sync message flow): partial sync committee selection proofs ->
+	// aggregated selections -> the node's beacon node's contribution for the agreed sync message's block root ->
+	// consensus -> signed contribution-and-proof
+	withContribution := realFetch && rapid.IntRange(0, 2).Draw(rt, "withContribution") == 0
+	prepContribDuty := core.NewPrepareSyncContributionDuty(dutySlot)
+	contribDuty := core.NewSyncContributionDuty(dutySlot)
+	syncDefs := core.DutyDefinitionSet{}
+	subcommsOf := map[eth2p0.ValidatorIndex][]uint64{}
+	for k, v := range vals {
+		// validators often share a subcommittee (their contributions then travel in one set)
+		first := uint64(rapid.IntRange(0, 1).Draw(rt, "subcommittee"))
+		idxs := []eth2p0.CommitteeIndex{eth2p0.CommitteeIndex(3 + uint64(k) + 128*first)}
+		subcommsOf[v.index] = []uint64{first}
+		if rapid.IntRange(0, 2).Draw(rt, "secondSubcommittee") == 0 {
+			// the validator also sits in a second subcommittee (only its lowest one contributes in the single-contribution wire format)
+			second := (first + 1 + uint64(rapid.IntRange(0, 2).Draw(rt, "secondSubcommitteeIdx"))) % 4
+			idxs = append(idxs, eth2p0.CommitteeIndex(70+uint64(k)+128*second))
+			subcommsOf[v.index] = append(subcommsOf[v.index], second)
+		}
+		syncDefs[v.corePub] = core.NewSyncCommitteeDefinition(&eth2v1.SyncCommitteeDuty{PubKey: eth2p0.BLSPubKey(v.group), ValidatorIndex: v.index, ValidatorSyncCommitteeIndices: idxs})
+	}
 	prepAggDuty := core.NewPrepareAggregatorDuty(dutySlot)
 	aggDuty := core.NewAggregatorDuty(dutySlot)
 	attDuty := core.NewAttesterDuty(dutySlot)
@@ -412,7 +449,7 @@ func runCase(rt *rapid.T, maxN int) {
 		must(err)
 		asdb := aggsigdb.NewMemDB(core.NewDeadliner(ctx, "aggsigdb", deadlineFn))
 		goFn(func() { asdb.Run(ctx) })
-		nd.sched = &stubSched{defs: map[core.Duty]core.DutyDefinitionSet{attDuty: attDefs, propDuty: propDefs, aggDuty: attDefs, prepAggDuty: attDefs}}
+		nd.sched = &stubSched{defs: map[core.Duty]core.DutyDefinitionSet{attDuty: attDefs, propDuty: propDefs, aggDuty: attDefs, prepAggDuty: attDefs, contribDuty: syncDefs, prepContribDuty: syncDefs}}
 		var fetch core.Fetcher = &stubFetch{candidate: func(d core.Duty, defs core.DutyDefinitionSet) core.UnsignedDataSet {
 			if d.Type != core.DutyAttester {
 				return nil
@@ -610,6 +647,58 @@ func runCase(rt *rapid.T, maxN int) {
 				}
 				_ = nd.vapi.SubmitAggregateAttestations(nd.ctx, &eth2api.SubmitAggregateAttestationsOpts{SignedAggregateAndProofs: list})
 			})
+		case core.DutySyncContribution:
+			for _, sub := range nd.sched.subs {
+				goFn(func() { _ = sub(nd.ctx, d, syncDefs) })
+			}
+			// the validator client: partial selection proofs for every (validator, subcommittee), wait for the aggregated
+			// ones, ask for the agreed contribution of its own head's block root, sign contribution-and-proof, submit
+			goFn(func() {
+				var sels []*eth2v1.SyncCommitteeSelection
+				for _, v := range vals {
+					for _, sc := range subcommsOf[v.index] {
+						sel := &eth2v1.SyncCommitteeSelection{ValidatorIndex: v.index, Slot: eth2p0.Slot(d.Slot), SubcommitteeIndex: sc}
+						s, err := specsign.Sign(bn, v.shares[i+1], core.NewSyncCommitteeSelection(sel))
+						must(err)
+						sel.SelectionProof = s.Signature().ToETH2()
+						sels = append(sels, sel)
+					}
+				}
+				selResp, err := nd.vapi.SyncCommitteeSelections(nd.ctx, &eth2api.SyncCommitteeSelectionsOpts{Selections: sels})
+				if err != nil {
+					return
+				}
+				var root eth2p0.Root
+				root[0] = nodeVariant[i]
+				var list []*altair.SignedContributionAndProof
+				for _, sel := range selResp.Data {
+					var v *validator
+					for _, x := range vals {
+						if x.index == sel.ValidatorIndex {
+							v = x
+						}
+					}
+					lowest := subcommsOf[v.index][0]
+					for _, sc := range subcommsOf[v.index] {
+						lowest = min(lowest, sc)
+					}
+					if sel.SubcommitteeIndex != lowest {
+						continue // single-contribution wire format: only the validator's lowest subcommittee contributes
+					}
+					cResp, err := nd.vapi.SyncCommitteeContribution(nd.ctx, &eth2api.SyncCommitteeContributionOpts{Slot: eth2p0.Slot(d.Slot), SubcommitteeIndex: sel.SubcommitteeIndex, BeaconBlockRoot: root})
+					if err != nil {
+						return
+					}
+					cp := &altair.SignedContributionAndProof{Message: &altair.ContributionAndProof{AggregatorIndex: v.index, Contribution: cResp.Data, SelectionProof: sel.SelectionProof}}
+					s, err := specsign.Sign(bn, v.shares[i+1], core.NewSignedSyncContributionAndProof(cp))
+					must(err)
+					cp.Signature = s.Signature().ToETH2()
+					list = append(list, cp)
+				}
+				if len(list) > 0 {
+					_ = nd.vapi.SubmitSyncCommitteeContributions(nd.ctx, list)
+				}
+			})
 		case core.DutyProposer:
 			for _, sub := range nd.sched.subs {
 				goFn(func() { _ = sub(nd.ctx, d, propDefs) })
@@ -697,6 +786,16 @@ func runCase(rt *rapid.T, maxN int) {
 	if withAggregator {
 		duties = append(duties, aggDuty)
 	}
+	if withContribution {
+		hasSync := false
+		for _, d := range duties {
+			hasSync = hasSync || d == syncDuty
+		}
+		if !hasSync {
+			duties = append(duties, syncDuty)
+		}
+		duties = append(duties, contribDuty)
+	}
 	equivocations, crashes, lateStarts, otherFork := 0, 0, 0, 0
 
 	deliver := func(fr *memnet.Frame) {
@@ -778,6 +877,9 @@ func runCase(rt *rapid.T, maxN int) {
 				if d.Type == core.DutyAggregator && rapid.IntRange(0, 2).Draw(rt, "byzSelection") == 0 {
 					sendDuty = prepAggDuty // a partial selection proof for another slot
 				}
+				if d.Type == core.DutySyncContribution && rapid.IntRange(0, 2).Draw(rt, "byzSyncSelection") == 0 {
+					sendDuty = prepContribDuty // a partial sync selection proof for another slot / subcommittee
+				}
 				for _, v := range vals {
 					if d.Type == core.DutyProposer && v != proposerVal {
 						continue
@@ -788,6 +890,13 @@ func runCase(rt *rapid.T, maxN int) {
 						data = core.NewSignedRandao(eth2p0.Epoch(variant-'a'), eth2p0.BLSSignature{})
 					case core.DutyPrepareAggregator:
 						data = core.NewBeaconCommitteeSelection(&eth2v1.BeaconCommitteeSelection{ValidatorIndex: v.index, Slot: eth2p0.Slot(d.Slot + uint64(variant-'a'))})
+					case core.DutyPrepareSyncContribution:
+						data = core.NewSyncCommitteeSelection(&eth2v1.SyncCommitteeSelection{ValidatorIndex: v.index, Slot: eth2p0.Slot(d.Slot + uint64(variant-'a')), SubcommitteeIndex: subcommsOf[v.index][0] + uint64(variant-'a')%2})
+					case core.DutySyncContribution:
+						// its own contribution as its beacon node has it, for a drawn block root, with a selection proof it made up
+						var root eth2p0.Root
+						root[0] = variants[rapid.IntRange(0, 2).Draw(rt, "byzContribRoot")]
+						data = core.NewSignedSyncContributionAndProof(&altair.SignedContributionAndProof{Message: &altair.ContributionAndProof{AggregatorIndex: v.index, Contribution: contributionOf(eth2p0.Slot(d.Slot), subcommsOf[v.index][0], root, variant)}})
 					case core.DutyAggregator:
 						// its own aggregate over a drawn variant of the data, with a selection proof it made up
 						data = core.NewVersionedSignedAggregateAndProof(&eth2spec.VersionedSignedAggregateAndProof{Version: eth2spec.DataVersionElectra, Electra: &electra.SignedAggregateAndProof{Message: &electra.AggregateAndProof{AggregatorIndex: v.index, Aggregate: aggregateOf(attData(d.Slot, variant), variant).Electra}}})
@@ -916,7 +1025,7 @@ func runCase(rt *rapid.T, maxN int) {
 		cls("published", nPub > 0), cls("decided_at_>=2_nodes", nDecided >= 2), cls("variants>=2", len(distinctVariants) >= 2), cls("crash", crashes > 0), cls("late_start", lateStarts > 0), cls("equivocating_share", equivocations > 0), cls("byz_sync_message_claims_slot_of_another_fork", otherFork > 0),
 		cls("attester_published", dutiesPublished[core.DutyAttester]), cls("sync_published", dutiesPublished[core.DutySyncMessage]), cls("exit_published", dutiesPublished[core.DutyExit]),
 		cls("production_fetcher", realFetch), cls("proposer_flow", withProposer), cls("randao_aggregated", dutiesPublished[core.DutyRandao]), cls("block_published", dutiesPublished[core.DutyProposer]),
-		cls("aggregator_flow", withAggregator), cls("selection_aggregated", dutiesPublished[core.DutyPrepareAggregator]), cls("aggregate_and_proof_published", dutiesPublished[core.DutyAggregator]), fmt.Sprintf("n=%d", n))
+		cls("contribution_flow", withContribution), cls("sync_selection_aggregated", dutiesPublished[core.DutyPrepareSyncContribution]), cls("contribution_and_proof_published", dutiesPublished[core.DutySyncContribution]), cls("aggregator_flow", withAggregator), cls("selection_aggregated", dutiesPublished[core.DutyPrepareAggregator]), cls("aggregate_and_proof_published", dutiesPublished[core.DutyAggregator]), fmt.Sprintf("n=%d", n))
 	if nontrivial && equivocations > 0 && vstat.WantSample("byzantine") {
 		vstat.Sample("byzantine", map[string]any{"n": n, "node_variants": string(nodeVariant), "byzantine": byzList, "crashes": crashes, "published_roots": rs, "events": head(trace, 60)})
 	} else if nontrivial && vstat.WantSample("plain") {
@@ -959,6 +1068,9 @@ func checkPublished(rt *rapid.T, bn *fakebn.BN, vals []*validator, mu *sync.Mute
 	type key struct {
 		duty core.Duty
 		pk   core.PubKey
+		// the sync subcommittee for the two sync-committee aggregation duties: a validator that sits in several
+		// subcommittees signs one object per subcommittee (charon's own stores key them the same way)
+		subcomm core.SubcommitteeIndex
 	}
 	roots := map[key][32]byte{}
 	first := map[key]published{}
@@ -979,7 +1091,11 @@ func checkPublished(rt *rapid.T, bn *fakebn.BN, vals []*validator, mu *sync.Mute
 		if err != nil {
 			rt.Fatalf("HARNESS-ERROR: %v", err)
 		}
-		k := key{p.duty, p.pubkey}
+		sc, err := core.SyncSubcommitteeIndex(p.duty.Type, p.data)
+		if err != nil {
+			rt.Fatalf("INVALID OBJECT EMITTED: node %d %s duty %v: %v", p.node, p.where, p.duty, err)
+		}
+		k := key{p.duty, p.pubkey, sc}
 		if prev, ok := roots[k]; ok && prev != r {
 			rt.Fatalf("TWO SIGNED OBJECTS FOR ONE DUTY: duty %v validator %s: node %d (%s) emitted signing root %x, node %d (%s) emitted %x\n%s", p.duty, p.pubkey[:12], first[k].node, first[k].where, prev[:8], p.node, p.where, r[:8], strings.Join(trace, "\n"))
 		}
